@@ -123,7 +123,7 @@ struct HistOpts {
     int max_chunk_class = 2;     // 0: tiny chunks only, 2: full gchunk distribution
 };
 
-struct SlotState { int kind = -1; int be = 256; bool live = false, keyed = false, tweaked = false, ever = false; };
+struct SlotState { int kind = -1; int be = 256; bool live = false, keyed = false, tweaked = false, ever = false, zeroed = true; };
 
 struct HistGen {
     HistOpts o;
@@ -132,7 +132,7 @@ struct HistGen {
 
     int add_slot(int kind, int be, int fill = 0) {
         p.push_back(mkop(std::string("new.") + kname(kind)).set("fill", fill));
-        SlotState s; s.kind = kind; s.be = be;
+        SlotState s; s.kind = kind; s.be = be; s.zeroed = fill == 0;   // only a zeroed handle may be used before init
         ss.push_back(s);
         return (int)ss.size() - 1;
     }
@@ -294,7 +294,8 @@ struct HistGen {
     void step(int i) {
         SlotState &s = ss[i];
         bool ctr = kind_is_ctr(s.kind);
-        if (o.invalid && *chance(18)) { invalid(i); return; }
+        // (calls on a handle holding arbitrary bytes that was never initialised are caller misuse: not generated)
+        if (o.invalid && (s.ever || s.zeroed) && *chance(18)) { invalid(i); return; }
         if (!s.live) {
             if (o.lifecycle && s.ever && *chance(45)) {
                 // use after cleanup / repeated cleanup: all must be harmless and return 0
@@ -302,7 +303,7 @@ struct HistGen {
                 if (w == 0) cleanup(i); else if (w == 1) key(i); else if (w == 2) data(i); else if (w == 3 && ctr) counter(i); else if (ctr) tweak(i); else data(i);
                 return;
             }
-            if (o.lifecycle && !s.ever && *chance(25)) {   // never-initialised zeroed object
+            if (o.lifecycle && !s.ever && s.zeroed && *chance(25)) {   // never-initialised zeroed object
                 int w = *irange(0, 2);
                 if (w == 0) cleanup(i); else if (w == 1) key(i); else data(i);
                 return;
